@@ -386,7 +386,7 @@ class XpTranslator(base.FnTranslator):
 
     # ---------------- statements
     def bind(self, name, e, env, node):
-        if is_list(self.peek_type(e, env)) and isinstance(e, ast.Name) and not env[e.id].const:
+        if is_list(self.peek_type(e, env)) and isinstance(e, ast.Name) and (not env[e.id].const or env[e.id].text != "[]"):
             raise TranslateError("line %d: a second name for a list (aliasing)" % node.lineno)
         lit = self.literal(e, env)
         env = dict(env)
